@@ -542,6 +542,112 @@ def deep_documents(rng, pool, out, limit0):
     return keep
 
 
+# ---------------------------------------------------------------------------------------------------------------------
+# Concurrent conversions run in a forked copy of the check.  Code that shares a parser, a buffer or any other native
+# object between threads does not return a wrong answer, it takes the interpreter down (SIGSEGV inside expat was seen):
+# the child's death - by a signal, by an exception nobody caught, without an answer - is the observation, and the
+# documents and the number of threads are the failing input.  The child does everything the threaded phase did in
+# process (comparison with each call's own answer, state before / after, settings polled meanwhile) and reports it.
+# ---------------------------------------------------------------------------------------------------------------------
+
+def in_child(fn, timeout=900):
+    """fn() in a forked child -> {"ok": what fn returned (JSON)} | {"died": description}"""
+    import select
+    import signal
+    import traceback
+    sys.stdout.flush()
+    sys.stderr.flush()
+    rfd, wfd = os.pipe()
+    pid = os.fork()
+    if pid == 0:
+        code = 1
+        try:
+            os.close(rfd)
+            try:
+                payload = json.dumps({"ok": fn()})
+            except BaseException as e:  # noqa
+                payload = json.dumps({"exc": "%s: %s" % (type(e).__name__, str(e)[:300]), "traceback": traceback.format_exc()[-1500:]})
+            with os.fdopen(wfd, "w") as f:
+                f.write(payload)
+            code = 0
+        finally:
+            os._exit(code)
+    os.close(wfd)
+    chunks, deadline = [], time.time() + timeout
+    with os.fdopen(rfd, "rb") as f:
+        while True:
+            left = deadline - time.time()
+            if left <= 0 or not select.select([f], [], [], left)[0]:
+                os.kill(pid, signal.SIGKILL)
+                os.waitpid(pid, 0)
+                raise_infra("the child process running the concurrent conversions did not finish in %d s" % timeout)
+            b = os.read(f.fileno(), 1 << 16)
+            if not b:
+                break
+            chunks.append(b)
+    _pid, status = os.waitpid(pid, 0)
+    if os.WIFSIGNALED(status):
+        sig = os.WTERMSIG(status)
+        try:
+            name = signal.Signals(sig).name
+        except ValueError:
+            name = "signal"
+        return {"died": "killed by signal %d (%s)" % (sig, name), "returncode": -sig}
+    try:
+        res = json.loads(b"".join(chunks).decode("utf-8"))
+    except ValueError:
+        return {"died": "exited with status %d without an answer" % os.WEXITSTATUS(status), "returncode": os.WEXITSTATUS(status)}
+    if "exc" in res:
+        return {"died": "uncaught %s" % res["exc"], "traceback": res.get("traceback"), "returncode": 1}
+    return res
+
+
+def hammer(docs, nthreads, ncalls, interval=None):
+    """(runs in a child) nthreads threads, each converting the documents round robin, ncalls calls each"""
+    seen = [[] for _ in docs]       # per document: the distinct results
+
+    def worker(tid):
+        for k in range(ncalls):
+            d = docs[(tid + k) % len(docs)]
+            r = result_of(d["data"], d["options"])
+            if r not in seen[(tid + k) % len(docs)]:
+                seen[(tid + k) % len(docs)].append(r)
+    if interval is not None:
+        sys.setswitchinterval(interval)
+    ts = [threading.Thread(target=worker, args=(t,)) for t in range(nthreads)]
+    for t in ts:
+        t.start()
+    for t in ts:
+        t.join()
+    return [rs[:4] for rs in seen]
+
+
+def report_death(out, died, docs, nthreads, what, interval=None):
+    """the interpreter did not survive concurrent conversions: look for a smaller set of documents that does it too, and report"""
+    docs = list(docs)
+    by_size = sorted(docs, key=lambda d: -len(d["data"]))
+    chosen, ncalls = docs[:60], 60
+    for cand, k in ((by_size[:1], 80), (by_size[:4], 60), (docs[:12], 60)):
+        r = in_child(lambda cand=cand, k=k: hammer(cand, nthreads, k, interval))
+        if "died" in r:
+            chosen, ncalls, died = cand, k, r
+            break
+    out.violation("the interpreter running %s died: %s - concurrent conversions do not even return (%d threads; replay: the documents below, each thread converting them in turn)"
+                  % (what, died["died"], nthreads),
+                  {"kind": "threads-crash", "threads": nthreads, "calls_per_thread": ncalls, "switch_interval": interval, "documents": [{"parts": d["parts"], "options": d["options"]} for d in chosen],
+                   "died": died["died"], "traceback": died.get("traceback")},
+                  expected="every call returns what the same call returns on its own", actual=died["died"])
+
+
+def merge_state(findings, leads, changes, ld, what):
+    """state_check for a block that ran in a child (which took the snapshots and the diff there)"""
+    for l in ld:
+        if l not in leads:
+            leads.append(l)
+    if changes and not any(c.get("kind") == "global-state" for _m, c in findings):
+        findings.append(("shared state of the process is different after %s than before: %s" % (what, "; ".join(changes)[:900]), {"kind": "global-state", "after": what, "changes": changes[:20]}))
+
+
 def deep_case(c):
     return {"parts": c["parts"], "options": c["options"], "nesting": c["kind"], "depth": c["depth"]}
 
@@ -553,6 +659,35 @@ def run_deep_threads(out, rng, seed, tier, pool, deep, nthreads, ncalls, finding
         return 0
     ordinary = [p for p in pool if p.get("model") is not None][:60]
     near = [c for c in deep if not c["sensitive"] and c["depth"] >= 0.65 * c["flip"]]
+    res = in_child(lambda: deep_threads_body(seed, ordinary, near, deep, nthreads, ncalls))
+    out.count(key="deep-threads-%d" % seed, nontrivial=True)
+    if "ok" in res and res["ok"]["uncaught"]:
+        res = {"died": "a converting thread ended with an uncaught %s" % res["ok"]["uncaught"][0]}
+    if "died" in res:
+        report_death(out, res, [dict(deep_case(c), data=c["data"]) for c in (near or deep)[:8]] + ordinary[:8], nthreads,
+                     "%d threads converting deeply nested and ordinary documents under a 0.1 ms switch interval" % nthreads, interval=1e-4)
+        return nthreads * ncalls
+    res = res["ok"]
+    merge_state(findings, [], res["changes"], [], "concurrent conversions of deeply nested and ordinary documents")
+    if res["bad"]:
+        which, k, r = res["bad"][0]
+        c = (deep if which == "deep" else ordinary)[k]
+        exp, case = (c["expected"], deep_case(c)) if which == "deep" else (c["model"], {"parts": c["parts"], "options": c["options"]})
+        out.violation("a conversion running concurrently with others returned another result than the same call on its own (%d of %d concurrent calls differ)" % (res["nbad"], nthreads * ncalls),
+                      dict(case, kind="threads", threads=nthreads, concurrent_with="conversions of other generated documents, nested and ordinary"), expected=exp, actual=r)
+    if res["seen_state"]:
+        base, seen = res["base"], res["seen_state"]
+        findings.append(("while %d threads were converting, the interpreter-wide %s was seen changed (%r -> %r): concurrent conversions do not run in the environment they were started in"
+                         % (nthreads, " / ".join(n for n, x, y in zip(PS.POLLED_NAMES, base, seen) if x != y), base, seen),
+                         {"kind": "global-state-threads", "threads": nthreads}))
+    return nthreads * ncalls
+
+
+def deep_threads_body(seed, ordinary, near, deep, nthreads, ncalls):
+    """(runs in a child, see in_child) -> what the threads and the polling main thread saw"""
+    uncaught = []
+    threading.excepthook = lambda a: uncaught.append("%s: %s" % (getattr(a.exc_type, "__name__", a.exc_type), str(a.exc_value)[:200]))
+    st0 = PS.snapshot(skip_prefixes=SKIP_MODULES)
     old_interval = sys.getswitchinterval()
     sys.setswitchinterval(1e-4)
     base = PS.polled()
@@ -565,14 +700,14 @@ def run_deep_threads(out, rng, seed, tier, pool, deep, nthreads, ncalls, finding
             if r2.random() < 0.7 or not ordinary:
                 # mostly the documents that still convert but need most of the stack they are allowed
                 c = r2.choice(near if (near and r2.random() < 0.7) else deep)
-                exp, case = c["expected"], deep_case(c)
+                exp, case = c["expected"], ("deep", next(k for k, x in enumerate(deep) if x is c))
             else:
                 c = r2.choice(ordinary)
-                exp, case = c["model"], {"parts": c["parts"], "options": c["options"]}
+                exp, case = c["model"], ("ordinary", next(k for k, x in enumerate(ordinary) if x is c))
             r = result_of(c["data"], c["options"])
             if not same(r, exp):
                 with lock:
-                    bad.append((case, exp, r))
+                    bad.append((case[0], case[1], r))
     ts = [threading.Thread(target=worker, args=(t,)) for t in range(nthreads)]
     for t in ts:
         t.start()
@@ -584,16 +719,8 @@ def run_deep_threads(out, rng, seed, tier, pool, deep, nthreads, ncalls, finding
     for t in ts:
         t.join()
     sys.setswitchinterval(old_interval)
-    out.count(key="deep-threads-%d" % seed, nontrivial=True)
-    if bad:
-        case, exp, r = bad[0]
-        out.violation("a conversion running concurrently with others returned another result than the same call on its own (%d of %d concurrent calls differ)" % (len(bad), nthreads * ncalls),
-                      dict(case, kind="threads", threads=nthreads, concurrent_with="conversions of other generated documents, nested and ordinary"), expected=exp, actual=r)
-    if seen_state:
-        findings.append(("while %d threads were converting, the interpreter-wide %s was seen changed (%r -> %r): concurrent conversions do not run in the environment they were started in"
-                         % (nthreads, " / ".join(n for n, x, y in zip(PS.POLLED_NAMES, base, seen_state[0]) if x != y), base, seen_state[0]),
-                         {"kind": "global-state-threads", "threads": nthreads}))
-    return nthreads * ncalls
+    changes, _ld = PS.diff(st0, PS.snapshot(skip_prefixes=SKIP_MODULES))
+    return {"bad": bad[:3], "nbad": len(bad), "seen_state": list(seen_state[0]) if seen_state else None, "base": list(base), "changes": changes, "uncaught": uncaught[:3]}
 
 
 def run_watched(out, items, findings, every=1500):
@@ -679,28 +806,51 @@ def run(out, tier, seed, model_ok):
     st = state_check(findings, leads, st, "the histories of conversions")
     # 2. threads
     nthreads = 4 if tier == "quick" else 16
-    errors = []
+    used = []
 
-    def worker(tid):
+    def threads_body():
+        """(runs in a child, see in_child: the parent's poller thread does not exist there, the child starts its own)"""
+        errors, uncaught = [], []
+        threading.excepthook = lambda a: uncaught.append("%s: %s" % (getattr(a.exc_type, "__name__", a.exc_type), str(a.exc_value)[:200]))
+        poller2 = PS.Poller().start()
+        st0 = PS.snapshot(skip_prefixes=SKIP_MODULES)
+
+        def worker(tid):
+            r2 = random.Random(seed * 100 + tid)
+            for _ in range(60 if tier == "quick" else 300):
+                idx = r2.randrange(len(pool))
+                p = pool[idx]
+                r = result_of(p["data"], p["options"])
+                exp = p["model"]
+                if exp is not None and (r["value"], r["messages"], r["err"]) != (exp["value"], exp["messages"], exp.get("err")):
+                    errors.append((idx, r))
+        ts = [threading.Thread(target=worker, args=(t,)) for t in range(nthreads)]
+        for t in ts:
+            t.start()
+        for t in ts:
+            t.join()
+        changes, ld = PS.diff(st0, PS.snapshot(skip_prefixes=SKIP_MODULES))
+        poller2.stop()
+        return {"errors": errors[:3], "changes": changes, "leads": ld, "polled": [w for _l, w in poller2.seen], "polls": poller2.polls, "uncaught": uncaught[:3]}
+    for tid in range(nthreads):
         r2 = random.Random(seed * 100 + tid)
-        for _ in range(60 if tier == "quick" else 300):
-            idx = r2.randrange(len(pool))
-            p = pool[idx]
-            r = result_of(p["data"], p["options"])
-            exp = p["model"]
-            if exp is not None and (r["value"], r["messages"], r["err"]) != (exp["value"], exp["messages"], exp.get("err")):
-                errors.append((idx, r))
-    ts = [threading.Thread(target=worker, args=(t,)) for t in range(nthreads)]
-    for t in ts:
-        t.start()
-    for t in ts:
-        t.join()
+        used += [r2.randrange(len(pool)) for _ in range(60 if tier == "quick" else 300)]     # (randrange only draws on the child's side too)
+    res = in_child(threads_body)
     out.count(key="threads-%d" % seed, nontrivial=True)
-    if errors:
-        idx, r = errors[0]
-        out.violation("a conversion running concurrently with others returned a different result", {"kind": "threads", "parts": pool[idx]["parts"], "options": pool[idx]["options"], "threads": nthreads},
-                      expected=pool[idx]["model"], actual=r)
-    st = state_check(findings, leads, st, "conversions in %d concurrent threads" % nthreads)
+    if "ok" in res and res["ok"]["uncaught"]:
+        res = {"died": "a converting thread ended with an uncaught %s" % res["ok"]["uncaught"][0]}
+    threads_died = "died" in res
+    if threads_died:
+        report_death(out, res, [pool[i] for i in dict.fromkeys(used)], nthreads, "%d threads converting generated documents" % nthreads)
+    else:
+        res = res["ok"]
+        if res["errors"]:
+            idx, r = res["errors"][0]
+            out.violation("a conversion running concurrently with others returned a different result", {"kind": "threads", "parts": pool[idx]["parts"], "options": pool[idx]["options"], "threads": nthreads},
+                          expected=pool[idx]["model"], actual=r)
+        merge_state(findings, leads, res["changes"], res["leads"], "conversions in %d concurrent threads" % nthreads)
+        poller.seen.extend((None, w) for w in res["polled"][: max(0, 5 - len(poller.seen))])
+        poller.polls += res["polls"]
     poller.label = None
     # 2b. families of packages sharing parts byte for byte, converted back to back in several orders
     from common import deepen
@@ -734,7 +884,7 @@ def run(out, tier, seed, model_ok):
     poller.stop()
     ndeepcalls = 0
     for rnd in range(deepen(2 if tier == "quick" else 8)):
-        if any(c.get("kind") == "threads" for k, v in out.violations for c in [v.get("case") or {}]):
+        if any(c.get("kind") in ("threads", "threads-crash") for k, v in out.violations for c in [v.get("case") or {}]):
             break
         ndeepcalls += run_deep_threads(out, rng2, seed * 31 + rnd, tier, pool, deep, nthreads, 30, findings)
     poller.start()
@@ -860,19 +1010,39 @@ def replay(out, payload, model_ok):
             if w.seen:
                 out.violation("; ".join(w.seen)[:900], case)
             return
-        got = []
+        nts = case.get("threads", 1) if case["kind"] == "threads" else 1
 
-        def worker():
-            for _ in range(25):
-                got.append(result_of(data, case["options"]))
-        ts = [threading.Thread(target=worker) for _ in range(case.get("threads", 1) if case["kind"] == "threads" else 1)]
-        old = sys.getswitchinterval()
-        sys.setswitchinterval(1e-4)
-        for t in ts:
-            t.start()
-        for t in ts:
-            t.join()
-        sys.setswitchinterval(old)
+        def body():
+            got = []
+
+            def worker():
+                for _ in range(25):
+                    got.append(result_of(data, case["options"]))
+            ts = [threading.Thread(target=worker) for _ in range(nts)]
+            sys.setswitchinterval(1e-4)
+            for t in ts:
+                t.start()
+            for t in ts:
+                t.join()
+            return got
+        res = in_child(body) if nts > 1 else {"ok": body()}
+        if "died" in res:
+            out.violation("the interpreter converting this document in %d threads at a time died: %s" % (nts, res["died"]), case, expected=alone, actual=res["died"])
+            return
+        got = res["ok"]
         bad = [r for r in got if not same(r, alone)]
         if bad:
-            out.violation("%d of %d conversions of this document (in %d threads at a time) differ from the same call in a fresh interpreter" % (len(bad), len(got), len(ts)), case, expected=alone, actual=bad[0])
+            out.violation("%d of %d conversions of this document (in %d threads at a time) differ from the same call in a fresh interpreter" % (len(bad), len(got), nts), case, expected=alone, actual=bad[0])
+    elif case.get("kind") == "threads-crash" and case.get("documents"):
+        docs = [dict(d, data=D.build_docx(d["parts"])) for d in case["documents"]]
+        res = in_child(lambda: hammer(docs, case.get("threads", 4), case.get("calls_per_thread", 60), case.get("switch_interval")))
+        if "died" in res:
+            out.violation("the interpreter converting these documents in %d threads at a time died: %s" % (case.get("threads", 4), res["died"]), case, actual=res["died"])
+            return
+        # it survived this time: every call must still have returned what the same call returns on its own
+        alone = fresh_calls([{"steps": [[str(k), d["options"]]]} for k, d in enumerate(docs)], {str(k): d["data"] for k, d in enumerate(docs)})
+        for k, rs in enumerate(res["ok"]):
+            bad = [r for r in rs if alone[k] and not same(r, alone[k][0])]
+            if bad:
+                out.violation("conversions of document %d of the recorded set, run in %d threads at a time, differ from the same call in a fresh interpreter" % (k, case.get("threads", 4)), case, expected=alone[k][0], actual=bad[0])
+                return
